@@ -301,6 +301,9 @@ func fullLoopsOver(info *types.Info, root ast.Node, isSrc func(e ast.Expr) bool)
 		if isSrc(e) {
 			return true
 		}
+		if d := deref(info, e); d != e && isSrc(d) {
+			return true
+		}
 		if id, ok := e.(*ast.Ident); ok {
 			if def := localDef(info, root, info.Uses[id]); def != nil && isSrc(ast.Unparen(def)) {
 				return true
